@@ -28,6 +28,12 @@ import (
 	"github.com/kubewharf/kubegateway/pkg/gateway/endpoints/request"
 )
 
+// cacheKey identifies the cache of one host of one cluster instance
+type cacheKey struct {
+	cluster *clusters.ClusterInfo
+	host    string
+}
+
 type multiClusterTokenReviewAuthenticator struct {
 	tokenSuccessCacheTTL time.Duration
 	tokenFailureCacheTTL time.Duration
@@ -64,17 +70,19 @@ func (a *multiClusterTokenReviewAuthenticator) AuthenticateToken(ctx context.Con
 		// if token cache ttl is 0, call upstream cluster directly
 		tokenAuth = a.authenticateTokenForHost(host)
 	} else {
-		// split cache by host
-		cache, loaded := a.caches.Load(host)
+		// split cache by cluster and host: a host (server name) can move to another cluster, whose
+		// requests must never be answered from what the previous owner said
+		key := cacheKey{cluster: cluster, host: host}
+		cache, loaded := a.caches.Load(key)
 		if !loaded {
 			// use token cache, if no cache is hit, authenticateToken() will be called
 			// tokencache use a new context inheriting from context.Background() without all value of req.Context.
-			cache, loaded = a.caches.LoadOrStore(host, tokencache.New(a.authenticateTokenForHost(host), false, a.tokenSuccessCacheTTL, a.tokenFailureCacheTTL))
+			cache, loaded = a.caches.LoadOrStore(key, tokencache.New(a.authenticateTokenForHost(host), false, a.tokenSuccessCacheTTL, a.tokenFailureCacheTTL))
 			// destry cache when cluster stopped
 			if !loaded {
 				go func() {
 					<-cluster.Context().Done()
-					a.caches.Delete(host)
+					a.caches.Delete(key)
 				}()
 			}
 		}
